@@ -131,6 +131,7 @@ pub struct ByteCase {
 fn byte_domain() -> Domain {
     let mut d = Domain::general();
     d.no_prefix_clash = false;
+    d.no_prefix_clash = false;
     d.max_nodes = 14;
     d.max_depth = 5;
     d.max_docs = 3;
